@@ -4,6 +4,7 @@
 //!   explore    seeded search over histories x schedules x fault sequences
 //!   sweep      one history asking every valid lunar month twice, in a seeded order
 //!   hashorder  every lunar year under many hash-map iteration orders
+//!   longrun    the same N distinct queries in one long-lived process, one order per process
 //!   replay     execute a script file exactly and print every evaluation
 //!   single     evaluate one query in this (fresh) process
 //!
@@ -21,10 +22,29 @@ mod script;
 #[global_allocator]
 static GLOBAL: sched::YieldAlloc = sched::YieldAlloc;
 
+fn parent_pid() -> u64 {
+  // field 4 of /proc/self/stat, after the parenthesised command name
+  match std::fs::read_to_string("/proc/self/stat") {
+    Ok(t) => t.rsplit(')').next().and_then(|r| r.split_whitespace().nth(1).map(|x| x.parse::<u64>().unwrap_or(0))).unwrap_or(0),
+    Err(_) => 0,
+  }
+}
+
 fn main() {
   if std::env::var("TYME_SIM_PANICS").is_err() {
     std::panic::set_hook(Box::new(|_| {}));
   }
+  // a worker whose driver has died (killed, timed out) must not keep running: poll the parent pid
+  let ppid0 = parent_pid();
+  std::thread::Builder::new()
+    .name("orphan-guard".to_string())
+    .spawn(move || loop {
+      std::thread::sleep(std::time::Duration::from_secs(2));
+      if parent_pid() != ppid0 {
+        std::process::exit(3);
+      }
+    })
+    .ok();
   let args: Vec<String> = std::env::args().collect();
   if args.len() < 2 {
     eprintln!("usage: tyme-sim <explore|sweep|hashorder|replay|single> ...");
@@ -36,6 +56,7 @@ fn main() {
     "sweep" => modes::sweep(&rest),
     "hashorder" => modes::hashorder(&rest),
     "hotkey" => modes::hotkey(&rest),
+    "longrun" => modes::longrun(&rest),
     "replay" => modes::replay(&rest),
     "single" => modes::single(&rest),
     "kinds" => {
